@@ -76,7 +76,7 @@ def match_tag(token, regex=match_tag_prefix_and_name):
     d = groupdict(m, token)
 
     end = m.end()
-    token = token[end:]
+    tag, token = token, token[end:]
 
     attrs = d['attrs'] = []
     for m in match_single_attribute.finditer(token):
@@ -92,6 +92,11 @@ def match_tag(token, regex=match_tag_prefix_and_name):
             attr['eq'] = ''
         attrs.append(attr)
         d['suffix'] = token[m.end():]
+
+    if d['suffix'] is None:
+        # Neither the end of the tag nor an attribute could be made
+        # out (e.g. an attribute value with an unterminated quote).
+        raise ParseError("Invalid tag.", tag)
 
     return d
 
